@@ -66,6 +66,8 @@ class ModelMixin(object):
         n = len(items)
 
         def get(k, items=items):
+            if not items:
+                return Sym("dyn", smt.fresh("no_such_item", smt.Val))
             if isinstance(k, int):
                 return items[k]
             k = z3.simplify(k)
@@ -503,7 +505,16 @@ class ModelMixin(object):
                 continue
             o = st1.get(r)
             if o.items is None:
-                raise Unsupported("dict comprehension of symbolic length")
+                # {k_expr: v_expr for ...} over a sequence of symbolic length: a symbolic dict described item-wise
+                seq = o.seq
+                did = smt.fresh("dictcomp", z3.IntSort())
+                d = Obj(ClassV("SymDict"), {
+                    "n": seq.n,
+                    "key": lambda k, seq=seq, s=st1: self.to_dyn(s, seq.get(k).items[0]),
+                    "val": lambda k, seq=seq, s=st1: self.to_dyn(s, seq.get(k).items[1]),
+                    "term": smt.Val.D(did)})
+                yield st1, st1.alloc(d)
+                continue
             d = {}
             for it in o.items:
                 k, v = it.items
@@ -576,6 +587,35 @@ class ModelMixin(object):
     def _comp_symbolic(self, node, g, elt, st, seq, saved):
         if g.ifs:
             raise Unsupported("filtered comprehension over a sequence of symbolic length")
+        fi = self.frames[-1] if self.frames else None
+        ordn = self.loop_ordinal("comp", node) if fi is not None else None
+        lc = self.loop_contracts.get((fi.key, "comp", ordn)) if fi is not None else None
+        if lc is not None:
+            # a comprehension whose element expression may raise / has effects is the loop it abbreviates
+            st.env["$out"] = st.alloc(PyList(items=[]))
+
+            def body(s, elem, j):
+                for s1, r in self.assign(g.target, elem, s):
+                    if isinstance(r, Raised):
+                        yield s1, ("raise", r.exc)
+                        continue
+                    for s2, v in self.ev(elt, s1):
+                        if isinstance(v, Raised):
+                            yield s2, ("raise", v.exc)
+                            continue
+                        for s3, r3 in self.bi_list_append(s2, [s2.env["$out"], v], {}):
+                            yield s3, ("normal", None)
+
+            for s2, out in self.iterate(st, seq, body, lc, "%s/comp%d" % (fi.key, ordn)):
+                if out[0] == "normal":
+                    res = s2.env.pop("$out")
+                    env2 = dict(saved)
+                    s2.env = env2
+                    yield s2, res
+                else:
+                    s2.env.pop("$out", None)
+                    yield s2, Raised(out[1])
+            return
         kvar = smt.fresh("k", z3.IntSort())
         probe = st.fork()
         probe.assume(z3.And(kvar >= 0, kvar < seq.n))
